@@ -249,6 +249,37 @@ def run(tier, seed, rng):
             failures.append(dict(kind='oracle', sig='regexp-sound-conditional', what='filter() with the regexp pre-filter returns other packets than without it for a conditional placeholder Any(startswith=, endswith=, contains=)',
                                  classes=csrc, cls=cls_, pattern=f"{fld}=Any({', '.join(f'{k}={v!r}' for k, v in cond.items())}), every other field Any()",
                                  corpus=[x.hex() for x in corp[cls_]], observed=oo))
+    # ---- FIXED values whose bytes spell regular-expression syntax beyond the single metacharacters: counted repetitions {m}, {m,n},
+    # {,n} after a byte, alone, across two adjacent fixed fields, character-class / flag / comment spellings
+    qsrc = ("class QF(Packet):\n    kind = Int(1)\n    tag = Data(4)\n    body = Data(until_marker=b';')\n"
+            "class QG(Packet):\n    tag = Data(4)\n    n = Int(2)\n    rest = Data(until_marker=b'\\n', include_delimiter=True)\n")
+    qtags = [b'a{2}', b'{2}z', b'a{,2', b'{,2}', b'a{1,', b'{1,}', b'ab{0', b'{0}b', b'a{2,', b'3}zz', b'2}zz', b'a-z]', b'(?i)', b'(?#x', b'a#b ', b'&&~~', b'\\d{2', b'a{}b', b'{{}}', b'x{1}']
+    qbodies = [b'k{3}', b'{3}', b'a{2}{3}', b'a{1,2}b', b'k{0}', b'k{,3}z', b'}{', b'a{2', b'[a]{2}', b'a{2}.']
+    qcases, qmeta = [], []
+    for tg in qtags:
+        exp = [tg, tg[:1] * 2 + b'zz', b'aazz', tg[:1] + tg[:1] + tg[2:], b'zzzz']
+        for kind in (0x61, 0x7b, 0x2c):
+            corp = [bytes([kind]) + (e + b'....')[:4] + bd + b';' for e in exp for bd in (b'', b'q')]
+            for lit in ({'tag': tg}, {'kind': kind, 'tag': tg}, {'kind': kind}):
+                pat = [[n, ({"x": lit[n].hex()} if isinstance(lit.get(n), bytes) else (lit[n] if n in lit else {"any": True}))] for n in ('kind', 'tag', 'body')]
+                qcases.append(dict(cls='QF', op='regexp', pattern=pat, corpus=[x.hex() for x in corp])); qmeta.append(('QF', lit, corp))
+        corp = [(e + b'....')[:4] + nn + b'r\n' for e in exp for nn in (b'{2', b'2}', b'ab')]
+        for lit in ({'tag': tg}, {'tag': tg, 'n': 0x7b32}, {'tag': tg, 'n': 0x327d}, {'n': 0x7b32, 'rest': b'}\n'}):
+            pat = [[n, ({"x": lit[n].hex()} if isinstance(lit.get(n), bytes) else (lit[n] if n in lit else {"any": True}))] for n in ('tag', 'n', 'rest')]
+            qcases.append(dict(cls='QG', op='regexp', pattern=pat, corpus=[x.hex() for x in corp])); qmeta.append(('QG', lit, corp))
+    for bd in qbodies:
+        corp = [b'a' + b'tttt' + x + b';' for x in (bd, bd[:1] * 3, b'aa', b'aab', b'', b'kkk', b'aa' * 3, b'ab', b'aaz')]
+        for lit in ({'body': bd}, {'tag': b'tttt', 'body': bd}):
+            pat = [[n, ({"x": lit[n].hex()} if isinstance(lit.get(n), bytes) else {"any": True})] for n in ('kind', 'tag', 'body')]
+            qcases.append(dict(cls='QF', op='regexp', pattern=pat, corpus=[x.hex() for x in corp])); qmeta.append(('QF', lit, corp))
+    qres = run_impl(os.path.join(VERIF, 'harness', 'impl_pkt.py'), dict(header=decl.HEADER_PY, blocks=[dict(name='quant', src=qsrc)], modname='c18q', cases=qcases))
+    dist['quantifier_spelling_patterns'] = len(qcases)
+    for (cls_, lit, corp), o in zip(qmeta, qres['outcomes']):
+        oo = o.get('ok', {})
+        if 'with' not in oo or 'without' not in oo or oo['with'] != oo['without']:
+            failures.append(dict(kind='oracle', sig='regexp-sound-literal-syntax', what='filter() with the regexp pre-filter returns other packets than without it (or the expression cannot be built) for fixed values whose bytes spell regular-expression syntax',
+                                 classes=qsrc, cls=cls_, pattern=', '.join(f"{k}={v!r}" for k, v in lit.items()) + ' (every other field Any())',
+                                 corpus=[x.hex() for x in corp], observed=oo if oo else o))
     # ---- a delimiter that is NOT consumed (consume_delimiter=False: the next field begins with it): finding D19
     usrc = ("class UH(Packet):\n    key = Data(until_marker=b':', consume_delimiter=False)\n    val = Data(until_marker=b'\\n')\n"
             "class UI(Packet):\n    key = Data(until_marker=b':', consume_delimiter=False)\n    sep = Int(1)\n    n = Int(1)\n")
